@@ -349,3 +349,12 @@ def instances(tier):
     out.append(gaussian_symmetry_instance((2,), 3, 2))
     out.append(degenerate_bounded_instance())
     return out
+
+
+_inst_before_spline = instances
+
+
+def instances(tier):       # noqa: F811
+    from .common import watson_spline_bounded_instance
+    from .common import bingham_trainer_bounded_instance
+    return _inst_before_spline(tier) + [watson_spline_bounded_instance('C09'), bingham_trainer_bounded_instance('C09')]
